@@ -180,6 +180,14 @@ def search(run, info):
     texts.append(("edge", "﻿PROGRAM p END_PROGRAM"))
     texts.append(("edge", "(* Ã© *) x"))   # 1252 bytes that are valid UTF-8: the guard excludes the 1252 form
     texts.append(("edge", ""))
+    # long files: the first character outside ASCII far into the file, and a multi-byte character across the power-of-two
+    # offsets a reader might buffer at
+    tail = "PROGRAM plong\nVAR x : INT; s : STRING; END_VAR\ns := 'Größe prüfen'; (* é *) y := 1;\nEND_PROGRAM\n"
+    for boundary in ((4096, 8192) if run.tier == "quick" else (512, 1024, 2048, 4096, 8192, 16384, 65536)):
+        for delta in (-3, -2, -1, 0, 1, 40):
+            pad = boundary + delta - len("(*  *)\n") - len("PROGRAM plong\nVAR x : INT; s : STRING; END_VAR\ns := 'Gr")
+            if pad > 0:
+                texts.append(("long", "(* " + "p" * pad + " *)\n" + tail))
 
     cases = []
     meta = []
@@ -271,7 +279,8 @@ def search(run, info):
                               {"input": {"text": t}})
     return {"coverage": {
         "rule": "texts = generated programs with non-ASCII characters sprinkled into comments and strings (Windows-1252-representable "
-                "and not) + faulty programs whose diagnostics follow non-ASCII text on the same line + edge texts; each stored in every "
+                "and not) + faulty programs whose diagnostics follow non-ASCII text on the same line + edge texts + long files whose first non-ASCII "
+                "character lies around offsets 4096 / 8192 (more powers of two at thorough); each stored in every "
                 "form the property covers (UTF-8, UTF-8+BOM, UTF-16LE+BOM, UTF-16BE+BOM, Windows-1252 when the guards hold); plus every "
                 "byte value 0x00-0xFF in four contexts (exhaustive) and random binary files; non-trivial = non-empty byte string, "
                 "distinct by content",
